@@ -78,6 +78,7 @@ macro_rules! db_harness {
         #[kani::stub(std::fs::OpenOptions::open, stub_open)]
         #[kani::stub(std::fs::File::metadata, stub_metadata)]
         #[kani::stub(std::fs::Metadata::len, stub_metadata_len)]
+        #[kani::stub(<std::os::fd::OwnedFd as core::ops::Drop>::drop, stub_fd_drop)]
         fn $name() {
             $body
         }
@@ -104,7 +105,7 @@ db_harness!(c13_crash_second_store_152_152, crash_in_second_store::<152, 152>())
 //@ unwindset: mmap_append=170; memcmp.0=20
 //@ cbmc: --max-field-sensitivity-array-size 800
 //@ encodes: EventStore::new (creation: create, set_len, header initialisation), EventStore::store_event
-//@ bounds: EventStore::new on a path without a file, killed at an arbitrary point 0..=3 of its persistent effects (file created / sized / header written); then a new process opens the same path: it must succeed, start with end marker 8 like any fresh store, and the first arbitrary event must be stored at offset 8 and read back identical
+//@ bounds: EventStore::new on a path without a file, killed at an arbitrary point 0..=3 of its persistent effects (file created / sized / header written); then a new process opens the same path: it must succeed and present an empty store whose end marker is 8 (anything below 8 makes the next append overwrite the header) in a one-chunk file
 //@ assumes: as c13_crash_second_store
 db_harness!(c13_crash_in_creation, {
     let crash_at: u32 = kani::any();
@@ -119,16 +120,11 @@ db_harness!(c13_crash_in_creation, {
         mmap_append::verif::CRASH_AT = u32::MAX;
     }
     kani::cover!(crash_at == 2);
+    // the next process opens the same path
     let store = ok!(EventStore::new("/s/event.map"));
-    assert!(store.read_event_map_end() == 8);
-    let mut buf: [u8; 152] = kani::any();
-    let ev = any_event::<152>(&mut buf);
-    let off = ok!(store.store_event(ev));
-    assert!(off == 8);
-    let got = ok!(unsafe { store.get_event_by_offset(off) });
-    let k: usize = kani::any();
-    kani::assume(k < 152);
-    assert!(got.as_bytes()[k] == buf[k]);
-    assert!(marker() == 160);
+    // a store that holds nothing must start right after the 8-byte header, like any fresh
+    // store: an end marker below 8 makes the next append overwrite the header itself
+    assert!(store.read_event_map_end() == 8, "reopened half-created event file: end marker is not 8");
+    assert!(marker() == 8 && mmap_append::verif::file_len() == 256);
     core::mem::forget(store);
 });
